@@ -53,7 +53,7 @@ var prefixes = map[sk.Kind][][]string{
 var faulted = map[sk.Kind][]string{
 	sk.Bridge: {"bridge", "bridge2", "bridge+claim", "claim", "tokenmap", "migrate", "rmlegacy", "empty", "bridge3"},
 	sk.L1Info: {"info", "info2", "v2", "verify", "verify+info", "init", "empty", "info3"},
-	sk.GER:    {"insert", "insertinfo", "remove", "empty"},
+	sk.GER:    {"insert", "insertinfo", "remove", "empty", "again"},
 }
 var tails = map[sk.Kind][][]string{
 	sk.Bridge: {{"bridge2"}, {"bridge", "bridge2"}},
